@@ -124,12 +124,20 @@ def env_index_rejected(kind, e, explicit_state):
             space = RDGridSpace(w=2, h=1, d=1, cell_env=[0, e], cell_vol=8.0)
         else:
             space = RDGraphSpace(nodes=[RDGraphSpaceNode(8.0, 0), RDGraphSpaceNode(1.0, e)], edges=[RDGraphSpaceEdge(0, 1)])
-        sysm = RDSystem(net, space, state=[1.0] * 6 if explicit_state else None)
-        kinetics.compute_dstatedt(sysm)
+        # explicit_state: state AND chemostat map given (nothing is generated from the environments, so only a check can refuse)
+        sysm = RDSystem(net, space, state=[1.0] * 6 if explicit_state else None, chemostats=[0] * 6 if explicit_state else None)
         return sysm
     if 0 <= e <= 1:
-        return not raises(build)
-    return raises(build)
+        return not raises(lambda: kinetics.compute_dstatedt(build()))
+    # refused when the system is BUILT (the marshalling layer hands the environment array to the native engine unchecked),
+    # also through the dictionary reader
+    if not raises(build):
+        return False
+    ok = rdsystem_to_dict(RDSystem(net, RDGridSpace(w=2, h=1, d=1, cell_env=[0, 1], cell_vol=8.0), state=[1.0] * 6, chemostats=[0] * 6))
+    if kind == "grid":
+        ok["space"]["cell_env"] = [0, e]
+        return raises(lambda: rdsystem_from_dict(ok))
+    return True
 
 
 def bad_choice_rejected(what, text):
